@@ -101,6 +101,7 @@ def varsN : Node → M (List String)
   | .declList ds => varsL ds
   | .exprList es => varsL es
   | .paramList ps => varsL ps
+  | .label _ st => varsN st
   | .other cls name _ =>
     pure (if Gen.variablesPass.contains cls then []
       else match name with
@@ -204,9 +205,10 @@ def covN : Node → M Cov
   | .declList ds => do let (k, l') ← covList ds; pure ⟨0, k, .declList l'⟩
   | .exprList es => do let (k, l') ← covList es; pure ⟨0, k, .exprList l'⟩
   | .paramList ps => do let (k, l') ← covList ps; pure ⟨0, k, .paramList l'⟩
+  | .label nm st => do let c ← covN st; pure ⟨c.up, c.inner, .label nm c.mod⟩
   | n@(.other cls _ _) => pure (if Gen.coveragePass.contains cls then ⟨0, 0, n⟩ else ⟨1, 0, n⟩)
   | n@(.funcDecl _) => pure ⟨1, 0, n⟩   -- no method: handler
-  | n => pure ⟨0, 0, n⟩   -- ID, Constant, Break, Continue, EmptyStatement, TypeDecl, Label: NodeHandler pass
+  | n => pure ⟨0, 0, n⟩   -- ID, Constant, Break, Continue, EmptyStatement, TypeDecl: NodeHandler pass
 /-- `_iter_attr`: each child gets a clear-action removing it from the list -/
 def covList : List Node → M (Nat × List Node)
   | [] => pure (0, [])
@@ -254,6 +256,7 @@ def loopsN : Node → M (List Node)
   | .declList ds => loopsL ds
   | .exprList es => loopsL es
   | .paramList ps => loopsL ps
+  | .label _ st => loopsN st
   -- classes without a method go to `FindLoops.handler`, which records loop statements only
   | _ => pure []
 def loopsL : List Node → M (List Node)
